@@ -1,6 +1,7 @@
 import PyaModel.Spec.D14
 import PyaModel.Spec.Mem
 import PyaModel.Proofs.C03
+import PyaModel.Proofs.C04Refl
 /-!
 # Proofs/C14 — helper lemmas for the value algebra (`unite`, `Ty.beq`, `Ty.hashEq`, `subst`)
 
@@ -33,17 +34,6 @@ theorem Obj.ind' {P : Obj → Prop}
       (fun x _ => Obj.ind' int bool str bytes none flt cplx inst cls tuple list set fset dict x)
       (fun x _ => Obj.ind' int bool str bytes none flt cplx inst cls tuple list set fset dict x)
 termination_by o => sizeOf o
-
-theorem Obj.pyEqList_refl_of (xs : List Obj) (h : ∀ x ∈ xs, Obj.pyEq x x = true) :
-    Obj.pyEqList xs xs = true := by
-  induction xs with
-  | nil => simp [Obj.pyEqList]
-  | cons x xs ih =>
-    simp only [Obj.pyEqList, Bool.and_eq_true]
-    exact ⟨h x (by simp), ih fun y hy => h y (by simp [hy])⟩
-
-theorem Obj.pyEq_refl (a : Obj) : Obj.pyEq a a = true := by
-  induction a using Obj.ind' <;> simp_all [Obj.pyEq, Obj.pyEqList_refl_of]
 
 theorem Obj.pyEqList_trans_of (xs ys zs : List Obj)
     (h : ∀ x ∈ xs, ∀ y z, Obj.pyEq x y = true → Obj.pyEq y z = true → Obj.pyEq x z = true)
@@ -81,9 +71,6 @@ theorem Obj.pyEq_trans (a : Obj) : ∀ b c, Obj.pyEq a b = true → Obj.pyEq b c
     intro b c h1 h2
     cases b <;> simp only [Obj.pyEq, Bool.false_eq_true] at h1 <;>
       cases c <;> simp only [Obj.pyEq, Bool.false_eq_true] at h2 ⊢ <;> grind
-
-theorem Obj.same_refl (a : Obj) : Obj.same a a = true := by
-  simp [Obj.same, Obj.pyEq_refl]
 
 theorem Obj.same_trans {a b c : Obj} (h1 : Obj.same a b = true) (h2 : Obj.same b c = true) :
     Obj.same a c = true := by
@@ -435,12 +422,21 @@ theorem Ty.keq_iff {a b : Ty} : Ty.keq a b = true ↔ Ty.hashEq a b = true ∧ T
 theorem Ty.keq_imp_beq' (a b : Ty) (h : Ty.keq a b = true) : Ty.beq a b = true := (Ty.keq_iff.mp h).2
 theorem Ty.keq_imp_hashEq (a b : Ty) (h : Ty.keq a b = true) : Ty.hashEq a b = true := (Ty.keq_iff.mp h).1
 
+
+/-- compatibility name (Proofs/C01 applies it to the output of `dictMem_iff`): since the zero-hash
+collision is modelled, what implies `==` is the dict-key relation `keq`, not hash equality alone
+(`Ty.hashEq_imp_beq_of` is the partial statement about `hashEq`). -/
+theorem Ty.hashEq_imp_beq' (a b : Ty) (h : Ty.keq a b = true) : Ty.beq a b = true :=
+  Ty.keq_imp_beq' a b h
 theorem Ty.keq_comm (a b : Ty) : Ty.keq a b = Ty.keq b a := by
   simp only [Ty.keq, Ty.hashEq_comm a b, Ty.beq_comm a b]
 
 theorem Ty.keq_refl (a : Ty) (h : a.hasUnhashable = false) : Ty.keq a a = true := by
   simp [Ty.keq, Ty.hashEq_refl a h, Ty.beq_refl a]
 
+
+theorem Ty.keq_self {a : Ty} (h : Ty.hashEq a a = true) : Ty.keq a a = true := by
+  simp [Ty.keq, h, Ty.beq_refl a]
 theorem Ty.keqList_nil : Ty.keqList [] [] = true := by simp [Ty.keqList, Ty.hashEqList, Ty.beqList]
 theorem Ty.keqList_nil_cons (b : Ty) (bs : List Ty) : Ty.keqList [] (b :: bs) = false := by
   simp [Ty.keqList, Ty.hashEqList]
@@ -1015,19 +1011,19 @@ theorem pack_beq {D1 D2 : List Ty} (h12 : ∀ x ∈ D1, ∃ y ∈ D2, Ty.keq y x
     simp only [pack]
     exact Ty.beq_union_iff.mpr (.inr ⟨h12, h21⟩)
 /-- with hash-reflexive values, every processed value is hash-equal to something in the result -/
-theorem dedup_coverH (l : List Ty) (hr : ∀ v ∈ l, Ty.keq v v = true) :
+theorem dedup_coverH (l : List Ty) (hr : ∀ v ∈ l, Ty.hashEq v v = true) :
     ∀ v ∈ l, ∃ e ∈ dedup [] l, Ty.keq e v = true := by
   intro v hv
   rcases dedup_cover [] l v hv with h | h
-  · exact ⟨v, h, hr v hv⟩
+  · exact ⟨v, h, Ty.keq_self (hr v hv)⟩
   · exact h
 
 /-- `unite_values` is insensitive to the order of the flattened members, up to `==`, when every
 member has a stable hash. -/
 theorem pack_dedup_perm {M1 M2 : List Ty} (hlen : M1.length = M2.length)
-    (hmem : ∀ v, v ∈ M1 ↔ v ∈ M2) (hr : ∀ v ∈ M1, Ty.keq v v = true) :
+    (hmem : ∀ v, v ∈ M1 ↔ v ∈ M2) (hr : ∀ v ∈ M1, Ty.hashEq v v = true) :
     Ty.beq (pack (dedup [] M1)) (pack (dedup [] M2)) = true := by
-  have hr2 : ∀ v ∈ M2, Ty.keq v v = true := fun v hv => hr v ((hmem v).mpr hv)
+  have hr2 : ∀ v ∈ M2, Ty.hashEq v v = true := fun v hv => hr v ((hmem v).mpr hv)
   apply pack_beq
   · intro x hx
     have := dedup_sub [] M1 x hx
@@ -1155,7 +1151,8 @@ theorem unite_perm' {vs ws : List Ty} (h : vs.Perm ws)
   refine pack_dedup_perm hp.length_eq (fun v => hp.mem_iff) ?_
   intro x hx
   obtain ⟨v, hv, hxv⟩ := List.mem_flatMap.mp hx
-  exact Ty.keq_refl x (hr v hv x hxv)
+  exact Ty.hashEq_refl x (hr v hv x hxv)
+
 theorem unite_never_cons (vs : List Ty) : unite (Ty.never :: vs) = unite vs := by
   simp [unite, Ty.never, flatten1]
 
@@ -1806,10 +1803,10 @@ theorem subst_unite' (m : TvMap) {a b : Ty}
     rw [← pack_flatten1 hL1 hL2, hR, hP]
     generalize hMdef : [a, b].flatMap flatten1 = M at *
     generalize hLdef : subst m (unite [a, b]) = L at *
-    have hrefl : ∀ x ∈ (substL m M).flatMap flatten1, Ty.keq x x = true := by
+    have hrefl : ∀ x ∈ (substL m M).flatMap flatten1, Ty.hashEq x x = true := by
       intro x hx
       obtain ⟨w, hw, hxw⟩ := mem_flatMap_subst.mp hx
-      exact Ty.keq_refl x (hnoW w hw x hxw)
+      exact Ty.hashEq_refl x (hnoW w hw x hxw)
     have h12 : ∀ x ∈ (substL m (dedup [] M)).flatMap flatten1,
         ∃ y ∈ dedup [] ((substL m M).flatMap flatten1), Ty.keq y x = true := by
       intro x hx
@@ -1821,7 +1818,7 @@ theorem subst_unite' (m : TvMap) {a b : Ty}
       have hyM := dedup_nil_sub _ y hy
       obtain ⟨w, hw, hyw⟩ := mem_flatMap_subst.mp hyM
       rcases dedup_cover [] M w hw with hwD | ⟨e, he, hew⟩
-      · exact ⟨y, mem_flatMap_subst.mpr ⟨w, hwD, hyw⟩, hrefl y hyM⟩
+      · exact ⟨y, mem_flatMap_subst.mpr ⟨w, hwD, hyw⟩, Ty.keq_self (hrefl y hyM)⟩
       · have hsw : (subst m w).hasUnhashable = false :=
           (hasUnhashable_flatten1 _).mpr (hnoW w hw)
         obtain ⟨x, hx, hxy⟩ := keq_flatten1_bwd (keq_subst m e w hew hsw) y hyw
@@ -2046,5 +2043,66 @@ theorem Ty.hashEq_imp_beq_of (a : Ty) : ∀ b, a.hasZeroLit = false → b.hasZer
     intro b _ _ h
     cases b <;> simp only [Ty.hashEq, Bool.false_eq_true, Bool.and_eq_true] at h <;>
       simp only [Ty.beq] <;> grind
+
+/-! #### the union accepts its members (member-wise `MultiValuedValue.can_assign`, every size) -/
+
+/-- no two entries are the same dict key (nothing would be merged) -/
+def keyNodup : List Ty → Bool
+  | [] => true
+  | x :: xs => !(xs.any (fun y => Ty.keq x y)) && keyNodup xs
+
+theorem keyNodup_iff (l : List Ty) : keyNodup l = true ↔ HNodup l := by
+  unfold HNodup
+  induction l with
+  | nil => simp [keyNodup]
+  | cons x xs ih => simp [keyNodup, ih, List.pairwise_cons]
+
+theorem union_accepts_member' {tbl : ClassTable} (L4 : Laws4 tbl) (x : Bool) (ts : List Ty) (m : Ty)
+    (hm : m ∈ ts) (hw : m.wfR tbl = true) : ca tbl x (.union ts) m = true :=
+  ca_union_left tbl x m ts hm m ((ca_refl_all L4 x m).1 hw)
+
+theorem pack_accepts {tbl : ClassTable} (L4 : Laws4 tbl) (x : Bool) (D : List Ty) (m : Ty)
+    (hm : m ∈ D) (hw : m.wfR tbl = true) : ca tbl x (pack D) m = true := by
+  match D, hm with
+  | [d], hm =>
+    simp only [List.mem_singleton] at hm; subst hm
+    exact (ca_refl_all L4 x m).1 hw
+  | d1 :: d2 :: l, hm => exact union_accepts_member' L4 x _ m hm hw
+
+theorem wfR_annotate {tbl : ClassTable} {t : Ty} (h : (annotate t).wfR tbl = true) : t.wfR tbl = true := by
+  cases t <;> simp_all [annotate, Ty.wfR]
+
+theorem ca_annotate_right (tbl : ClassTable) (x : Bool) (e t : Ty) :
+    ca tbl x e (annotate t) = ca tbl x e t := by
+  cases t <;> simp [annotate, ca_annotated_right]
+
+theorem unite_accepts' {tbl : ClassTable} (L4 : Laws4 tbl) (x : Bool) (vs : List Ty) (v : Ty)
+    (hv : v ∈ vs) (hk : keyNodup (vs.flatMap flatten1) = true)
+    (hw : ∀ m ∈ flatten1 v, m.wfR tbl = true) : ca tbl x (unite vs) v = true := by
+  have hD : dedup [] (vs.flatMap flatten1) = vs.flatMap flatten1 := by
+    simpa using dedup_of_hnodup [] (vs.flatMap flatten1) (by simpa using (keyNodup_iff _).mp hk)
+  rw [unite_eq, hD]
+  have hsub : ∀ m ∈ flatten1 v, m ∈ vs.flatMap flatten1 :=
+    fun m hm => List.mem_flatMap.mpr ⟨v, hv, hm⟩
+  by_cases hu : v.isU = true
+  · cases v with
+    | union ts =>
+      rw [ca_union_right, caAllR_eq_all, List.all_eq_true]
+      intro t ht
+      exact pack_accepts L4 x _ t (hsub t (by simpa [flatten1] using ht)) (hw t (by simpa [flatten1] using ht))
+    | annotated v' =>
+      cases v' with
+      | union ts =>
+        rw [ca_annotated_right, ca_union_right, caAllR_eq_all, List.all_eq_true]
+        intro t ht
+        have hmem : annotate t ∈ flatten1 (.annotated (.union ts)) := by
+          simp only [flatten1, List.mem_map]; exact ⟨t, ht, rfl⟩
+        rw [← ca_annotate_right]
+        exact pack_accepts L4 x _ _ (hsub _ hmem) (hw _ hmem)
+      | _ => simp [Ty.isU] at hu
+    | _ => simp [Ty.isU] at hu
+  · have hiu : v.isU = false := by simpa using hu
+    have h1 : v ∈ flatten1 v := by rw [flatten1_of_not_isU hiu]; simp
+    exact pack_accepts L4 x _ v (hsub v h1) (hw v h1)
 
 end Pya
